@@ -63,6 +63,13 @@ CLAIMED = {
             "Bounds: graphs <=3 nodes with all relabelings, 4-node graphs (<=4 bonds) under all bijections, C4 and K4-e; "
             "labels are formatted into strings by the code, so each path is one realised labelled graph and relabelling "
             "(solver-driven exhaustion); SHA-256 truncation collisions ignored."),
+    "C09": ("Bounded symbolic model checking of the graph core of CanonRSMI.canonicalise (canonical reactant graph, map "
+            "pairing, product remapping, map synchronisation; back-ends wl and nauty) and of AAMValidator.smiles_check / "
+            "check_equivariant_graph on the real code with the RDKit boundary stubbed: output ITS isomorphic to input ITS, "
+            "fixed point, numbering independence for distinguishable atoms; every renumbering accepted, a transposition of "
+            "two product-side atom maps accepted iff the centres (RC) / ITS graphs are isomorphic (labels symbolic).",
+            "Bounds: reactions on n<=3 atoms (thorough 4). Standardize.fit, BalanceReactionCheck, fix_aam, expand_aam and "
+            "all SMILES parsing/writing are RDKit wrappers and are outside this family; those clauses are not claimed."),
     "C10": ("Bounded symbolic model checking of the graph-level representation changes on the real code: h_to_explicit / "
             "h_to_implicit / implicit_hydrogen (restoration, hydrogen totals, inputs untouched) with symbolic hydrogen "
             "counts, and ITS -> GML text -> ITS for centre and full rules (core/reindex on/off) plus the smart_to_gml route "
